@@ -91,7 +91,7 @@ def match_finding(findings, prop, obligation=None, bkey=None):
 
 
 def write_replay(prop, n, payload):
-    d = os.path.join(VERIF, 'out', 'replay', prop)
+    d = os.path.join(VERIF, 'out', 'replay' if 'VERIF_REPO' not in os.environ else 'replay-other-tree', prop)
     os.makedirs(d, exist_ok=True)
     path = os.path.join(d, 'violation-%d.json' % n)
     with open(path, 'w') as f:
@@ -263,8 +263,9 @@ def main(argv):
     ev = {'property_id': prop, 'tier': tier, 'seed': seed, 'level': level, 'coverage': cov,
           'assumptions': trusted + assumptions + ['extraction drops: docstrings, __future__ imports, logger calls; PY2 = False'],
           'wall_s': round(wall, 2), 'violations': nviol}
-    os.makedirs(os.path.join(VERIF, 'evidence'), exist_ok=True)
-    with open(os.path.join(VERIF, 'evidence', prop + '.json'), 'w') as f:
+    evdir = os.path.join(VERIF, 'evidence') if 'VERIF_REPO' not in os.environ else os.path.join(VERIF, 'out', 'evidence-other-tree')
+    os.makedirs(evdir, exist_ok=True)
+    with open(os.path.join(evdir, prop + '.json'), 'w') as f:
         json.dump(ev, f, indent=1, default=str)
     print('%s: obligations %d/%d discharged (%s), bounded %s evaluations, %d violation(s), %.1fs' % (
         prop, discharged, obligations, by_backend, bcov.get('evaluations'), nviol, wall))
